@@ -149,6 +149,11 @@ func (d *FormatDecoder) Next() (interface{}, error) {
 	// case the caller didn't read it all.
 	if d.advance != nil {
 		io.Copy(ioutil.Discard, d.advance)
+		// If there's still some of the payload outstanding then the stream ended early
+		if lr, ok := d.advance.(*io.LimitedReader); ok && lr.N > 0 {
+			d.advance = nil
+			return nil, io.ErrUnexpectedEOF
+		}
 		d.advance = nil
 	}
 	hdr, err := d.r.ReadHeader()
